@@ -2,7 +2,7 @@
 seeded rational hints, uninterpreted functions given their concrete interpretation, discrete symbols
 left to the solver).  `unknown` is never a pass and never a violation."""
 from __future__ import annotations
-import hashlib, re, time, subprocess, tempfile, os
+import hashlib, re, time, subprocess, tempfile, os, random, shutil
 from fractions import Fraction
 import z3
 from . import terms as tm
@@ -53,7 +53,7 @@ def side_lemmas(terms):
     return out
 
 
-def subst(ts, env, beps=Fraction(1, 10 ** 6)):
+def subst(ts, env, beps=Fraction(1, 10 ** 6), benv=None):
     """rebuild terms with Real variables replaced by env values, through the folding constructors
     (terms.CONCRETE must be on so that uninterpreted functions of constants are evaluated).
     Real equalities that stay symbolic are relaxed to |a-b| <= beps (float interpretations)."""
@@ -68,7 +68,9 @@ def subst(ts, env, beps=Fraction(1, 10 ** 6)):
         op = x.op
         if op == "const": r = x
         elif op == "var":
-            r = tm.const(env[x.args[0]], "Real") if (x.sort == "Real" and x.args[0] in env) else x
+            if x.sort == "Real" and x.args[0] in env: r = tm.const(env[x.args[0]], "Real")
+            elif benv and x.args[0] in benv: r = tm.const(benv[x.args[0]], x.sort)
+            else: r = x
         else:
             a = [memo[y] for y in x.args]
             if op == "add": r = tm.add(*a)
@@ -100,6 +102,44 @@ def free_vars(ts):
     return {x.args[0]: x for x in tm.subterms(ts) if x.op == "var"}
 
 
+def is_nonlinear(ts):
+    """does any term multiply two non-constant Real sub-terms (or apply an uninterpreted function)?"""
+    for x in tm.subterms(ts):
+        if x.op == "mul" and x.sort == "Real" and not x.args[0].is_const and not x.args[1].is_const: return True
+    return False
+
+
+Z3BIN = shutil.which("z3-new") or "/usr/bin/z3"
+
+
+def hard_check(solver, timeout_s, value_of=()):
+    """decide a z3 Solver's assertions in a separate z3 process that is killed at the deadline (z3's in-process
+    timeout is not honoured inside some nonlinear-arithmetic routines).  value_of: z3 constants whose model value
+    is wanted.  Returns (answer, {sexpr-name: value-string})."""
+    text = "(set-option :timeout %d)\n" % int(timeout_s * 1000) + solver.to_smt2()
+    if value_of:
+        text += "\n(get-value (" + " ".join(v.sexpr() for v in value_of) + "))\n"
+    d = "/dev/shm" if os.path.isdir("/dev/shm") else None
+    with tempfile.NamedTemporaryFile("w", suffix=".smt2", delete=False, dir=d) as f:
+        f.write(text); path = f.name
+    try:
+        try:
+            out = subprocess.run([Z3BIN, path], capture_output=True, text=True, timeout=timeout_s + 5).stdout
+        except subprocess.TimeoutExpired:
+            return "unknown", {}
+    finally:
+        os.unlink(path)
+    lines = out.strip().splitlines()
+    ans = lines[0].strip() if lines else "unknown"
+    if ans not in ("sat", "unsat"): return "unknown", {}
+    vals = {}
+    if ans == "sat" and value_of:
+        body = "\n".join(lines[1:])
+        for m in re.finditer(r"\((\|[^|]*\||[^\s()]+)\s+(\(-\s*[^()]+\)|[^\s()]+)\)", body):
+            vals[m.group(1)] = m.group(2)
+    return ans, vals
+
+
 class Decider:
     def __init__(self, assume=(), seed=0, hint_spec=(), t_short=10, t_long=120, rounds=4, lemmas=True):
         self.assume = list(assume)
@@ -108,15 +148,24 @@ class Decider:
         self.lemmas = lemmas
         self.symcache = {}
         self.solver_time = 0.0
+        self.hard_checks = 0
         self.smt2 = []           # (name, smt2 text, verdict) of precise-phase proofs (for cross-solver re-check)
         self.keep_smt2 = False
 
     # -- helpers
     def _solver(self, timeout_s):
-        s = z3.Solver(); s.set("timeout", int(timeout_s * 1000)); return s
+        s = z3.Solver(); s.set("timeout", int(timeout_s * 1000))
+        s.set("rlimit", int(timeout_s * 4_000_000))       # deterministic resource cap: z3's wall-clock timeout is not always honoured
+        return s
 
-    def _check(self, s):
-        t0 = time.time(); r = str(s.check()); self.solver_time += time.time() - t0
+    def _check(self, s, hard=None):
+        """hard = timeout in seconds -> decided in a killable subprocess (nonlinear queries)"""
+        t0 = time.time()
+        if hard is not None:
+            r, _ = hard_check(s, hard); self.hard_checks += 1
+        else:
+            r = str(s.check())
+        self.solver_time += time.time() - t0
         return r
 
     def cone(self, goal, extra=()):
@@ -134,12 +183,27 @@ class Decider:
         A = A + (side_lemmas(A) if self.lemmas else [])
         s = self._solver(timeout); memo = {}; ufs = {}
         for a in A: s.add(tm.to_z3(a, memo, ufs))
-        r = self._check(s)
+        r = self._check(s, hard=(timeout if is_nonlinear(A) else None))
         if r != "unknown": return r
         rb, _ = self._phase_b(tm.TRUE, A, want_model=False)
         return rb
 
     # -- main entry
+    def refute(self, goal, extra=(), name=""):
+        """reachability twins: only a counterexample is of interest (A0 is kept: proving a twin is a harness error)"""
+        t0 = time.time()
+        if goal.is_const and goal.val: return dict(verdict="structural", phase="-", ms=0.0)
+        A = self.cone(goal, extra)
+        if not goal.is_const:
+            s = self._solver(self.t_short); memo = {}; ufs = {}
+            for a in A: s.add(tm.to_z3(a, memo, ufs, abstract=True))
+            s.add(tm.to_z3(tm.bnot(goal), memo, ufs, abstract=True))
+            if self._check(s) == "unsat":
+                return dict(verdict="unsat", phase="A0", ms=1000 * (time.time() - t0))
+        rb, model = self._phase_b(goal, A)
+        if rb == "sat": return dict(verdict="sat", phase="B", ms=1000 * (time.time() - t0), model=model)
+        return dict(verdict="unknown", phase="B", ms=1000 * (time.time() - t0))
+
     def prove(self, goal, extra=(), name=""):
         """returns dict(verdict in structural|unsat|sat|unknown, phase, ms, model?)"""
         t0 = time.time()
@@ -176,44 +240,79 @@ class Decider:
         s = self._solver(timeout); memo = {}; ufs = {}
         for a in A: s.add(tm.to_z3(a, memo, ufs))
         s.add(tm.to_z3(ng, memo, ufs))
-        r = self._check(s)
+        r = self._check(s, hard=(timeout if is_nonlinear(list(A) + [ng]) else None))
         if self.keep_smt2 and r == "unsat":
             self.smt2.append((name, s.to_smt2(), r))
         return r
 
     def _phase_b(self, goal, A, want_model=True, rounds=None, first_round=0):
+        """refutation at hinted points.  Stage 1: reals fixed, discrete symbols free (5 s).  Stage 2 (if stage 1 is
+        not conclusive): the drawn permutations (one-hot Booleans P<tag>_i_k) are fixed to seeded random permutations as
+        well, so that the query folds to constants; other discrete symbols stay free."""
         allterms = [goal] + list(A)
         fv = free_vars(allterms)
         reals = sorted(n for n, v in fv.items() if v.sort == "Real")
+        perm_groups = {}
+        for n in fv:
+            m = re.match(r"^P(.+)_(\d+)_(\d+)$", n)
+            if m and fv[n].sort == "Bool": perm_groups.setdefault(m.group(1), set()).add(int(m.group(2)))
         last = "unknown"
         old = tm.CONCRETE["on"]
         for rnd in range(first_round, first_round + (rounds or self.rounds)):
             env = {n: self.hints.value(n, rnd) for n in reals}
-            tm.CONCRETE["on"] = True
-            try:
-                ts = subst(allterms, env)
-            except (ZeroDivisionError, ValueError, OverflowError):
-                continue
-            finally:
-                tm.CONCRETE["on"] = old
-            g, As = ts[0], ts[1:]
-            if any(a.is_const and not a.val for a in As):
-                continue                  # hints violate an assumption
-            s = self._solver(30); memo = {}; ufs = {}
-            for a in As:
-                if not a.is_const: s.add(tm.to_z3(a, memo, ufs))
-            s.add(tm.to_z3(tm.bnot(g), memo, ufs))
-            r = self._check(s)
-            if r == "sat":
-                if not want_model: return "sat", None
-                m = s.model()
-                model = {n: env[n] for n in reals}
-                for n, v in fv.items():
-                    if v.sort == "Real": continue
-                    zv = m.eval(tm.to_z3(v, memo, ufs), model_completion=True)
-                    model[n] = z3.is_true(zv) if v.sort == "Bool" else zv.as_long()
-                return "sat", model
-            last = r if r != "unsat" else last
+            nl0 = is_nonlinear(allterms)
+            for stage in ((2, 1) if (nl0 and perm_groups) else (1, 2)):
+                benv = {}
+                if stage == 2:
+                    if not perm_groups: continue
+                    for tag, rows in perm_groups.items():
+                        nn = max(rows) + 1
+                        pi = list(range(nn)); random.Random(_h(tag, self.hints.seed, rnd)).shuffle(pi)
+                        for i in range(nn):
+                            for k in range(nn): benv[f"P{tag}_{i}_{k}"] = (pi[i] == k)
+                tm.CONCRETE["on"] = True
+                try:
+                    ts = subst(allterms, env, benv=benv)
+                except (ZeroDivisionError, ValueError, OverflowError):
+                    break
+                finally:
+                    tm.CONCRETE["on"] = old
+                g, As = ts[0], ts[1:]
+                if any(a.is_const and not a.val for a in As):
+                    if stage == 1: break                  # real hints violate an assumption
+                    continue
+                s = self._solver(5 if stage == 1 else 20); memo = {}; ufs = {}
+                for a in As:
+                    if not a.is_const: s.add(tm.to_z3(a, memo, ufs))
+                s.add(tm.to_z3(tm.bnot(g), memo, ufs))
+                nl = is_nonlinear([x for x in As if not x.is_const] + [g])
+                disc = {n: v for n, v in fv.items() if v.sort != "Real" and n not in benv}
+                if nl:
+                    t0 = time.time()
+                    zc = {n: tm.to_z3(v, memo, ufs) for n, v in disc.items()}
+                    r, vals = hard_check(s, 5 if stage == 1 else 20, list(zc.values())); self.hard_checks += 1
+                    self.solver_time += time.time() - t0
+                else:
+                    r = self._check(s)
+                if r == "sat":
+                    if not want_model: return "sat", None
+                    model = {n: env[n] for n in reals}
+                    model.update(benv)
+                    if nl:
+                        for n, v in disc.items():
+                            raw = vals.get(zc[n].sexpr())
+                            if raw is None: raw = "false" if v.sort == "Bool" else "0"
+                            model[n] = (raw == "true") if v.sort == "Bool" else int(raw.replace("(", "").replace(")", "").replace(" ", ""))
+                    else:
+                        m = s.model()
+                        for n, v in disc.items():
+                            zv = m.eval(tm.to_z3(v, memo, ufs), model_completion=True)
+                            model[n] = z3.is_true(zv) if v.sort == "Bool" else zv.as_long()
+                    return "sat", model
+                if r == "unsat":
+                    if stage == 1: break                  # no counterexample at this real point for any discrete choice
+                    continue
+                last = r
         return ("unsat-at-hints" if last == "unknown" else last), None
 
 
